@@ -12,7 +12,7 @@ THEOREMS = ["Mmtk.RefProc.weak_cleared_iff", "Mmtk.RefProc.enqueued_once", "Mmtk
             "Mmtk.RefProc.fin_wf_apply", "Mmtk.RefProc.fin_scan_spec", "Mmtk.RefProc.pop_spec", "Mmtk.RefProc.fin_history_wf",
             "Mmtk.WeakMon.gcStages_tables_nodup", "Mmtk.WeakMon.gcStages_weak_spec", "Mmtk.WeakMon.gcStages_fin_spec",
             "Mmtk.WeakMon.Los.isLive_iff_survives_partial", "Mmtk.WeakMon.Los.young_untraced_live_but_swept"]
-KEYS = ("gc:referent-mismatch", "gc:enqueued-mismatch", "gc:getfin-mismatch", "gc:getallfin-mismatch", "gc:ready-not-alive",
+KEYS = ("gc:referent-mismatch", "gc:enqueued-mismatch", "gc:getfin-mismatch", "gc:getallfin-mismatch", "gc:ismo-missing",
         "gc:dup-id", "gc:extra-object", "gc:lost-object", "gc:size-mismatch", "gc:payload", "gc:field-mismatch", "gc:root-mismatch")
 META = {
     "text": "Reference / finalizable processor models (Model/RefProc.lean, transcribed from reference_processor.rs and finalizable_processor.rs): a registered live reference is cleared and enqueued iff its referent is outside the closure computed before its stage, exactly once per registration, a live referent is kept, a dead reference is dropped silently, soft referents are retained outside emergency collections; the finalizable processor conserves registrations (each is candidate, ready or popped, never two of them, never lost), a registration becomes ready iff its object is unreachable at the scan and `get_ready_object` hands out each ready registration once — over histories of any length. The monitor's pipeline `gcStages` (Soft -> Weak -> Final (+rescan) -> Phantom, each on the closure of what was retained before) keeps the tables duplicate-free and satisfies the per-stage specifications. Real collections: programs that register soft / weak / phantom reference objects and finalizers (also twice), keep / drop / share referents, clear referents by hand, drop reference objects, re-register enqueued ones, resurrect subgraphs through finalizers (weak cleared, phantom kept), pop finalized objects late and re-root them, on all 10 collecting plans x {1,4} workers with full-heap GCs and, on the generational plans, nursery GCs; after every pause `enqueued`, `referent`, `getfin`, `getallfin`, the snapshot's referent fields and the re-rooted finalized subgraphs are compared with the model by the Lean monitor and by an independent Python oracle.",
@@ -82,7 +82,9 @@ class RefModel:
         allf = self.cand + self.ready
         self.cand = [f for f in allf if live(m1)(f)]
         self.ready = [f for f in allf if not live(m1)(f)]
-        m2 = self.closure(seeds + retained + self.ready)
+        # FinalizableProcessor::scan passes every registration through keep_alive (trace_object): ready ones are
+        # resurrected, live candidates are traced too (matters for an unreachable candidate of a never-collected space)
+        m2 = self.closure(seeds + retained + self.ready + self.cand)
         scan("soft", live(m2))
         scan("weak", live(m2))
         scan("phantom", live(m2))
@@ -402,7 +404,7 @@ def oracle(trace):
             a = int(t[1], 16)
             ids = [i for i, v in last_ref.items() if v == a and i in fixed]
             if ids and (ids[0] in m.alive or ids[0] >= m.born_before) and res != str(ids[0]):
-                out.append((idx, "gc:ready-not-alive", f"id={ids[0]} at {a:#x}: {res}"))
+                out.append((idx, "gc:ismo-missing", f"id={ids[0]} at {a:#x}: {res}"))
     return sorted(set(out))
 
 
